@@ -115,45 +115,7 @@ func init() {
 	})
 }
 
-// runFaulted executes the history with the given fault plan and the probes.
-func runFaulted(t *testing.T, c *Case, st *Stats, relax Relax, faults []Fault, snaps *[]map[string]int) (*Violation, *Devices) {
-	var dev *Devices
-	v := RunSeq(t, c, st, relax, seqOpts{}, func(x *SeqCtx) *Violation {
-		dev = x.W.Dev
-		x.W.Dev.ResetCounts()
-		x.W.Dev.SetPlan(faults)
-		for _, op := range c.Ops {
-			x.Ex.Do(op)
-			if snaps != nil {
-				*snaps = append(*snaps, x.W.Dev.Snapshot())
-			}
-		}
-		x.Ex.CloseAll()
-		// probes: a read-only call, then a writing call
-		x.Ex.Do(Op{K: "stat", P: "/"})
-		x.Ex.Do(Op{K: "mkdir", P: "/probe", M: 0o755})
-		x.Ex.Do(Op{K: "readfile", P: "/a"})
-		if snaps != nil {
-			*snaps = append(*snaps, x.W.Dev.Snapshot())
-		}
-		return nil
-	})
-	return v, dev
-}
-
-func c10Verdict(prop string, v *Violation, out *Devices) *Violation {
-	if v != nil {
-		return v
-	}
-	if out != nil && out.OpenHandles != 0 {
-		return &Violation{Prop: prop, Oracle: "drive-handle-left-open", Detail: fmt.Sprintf("%d drive handle(s) still open after all calls returned", out.OpenHandles)}
-	}
-	return nil
-}
-
 func evalC10(t *testing.T, c *Case, st *Stats, relax Relax) *Violation {
-	finish := func(v *Violation, dev *Devices, o Outcome) *Violation { return c10Verdict(c.Prop, v, dev) }
-	_ = finish
 	if c.Param("enumerate", 0) == 0 {
 		// replay of one concrete fault plan
 		v, dev := runFaultedChecked(t, c, st, relax, c.Faults, nil)
@@ -302,10 +264,14 @@ func runFaultedChecked(t *testing.T, c *Case, st *Stats, relax Relax, faults []F
 		if snaps != nil {
 			*snaps = append(*snaps, w.Dev.Snapshot())
 		}
+		if b, err := os.ReadFile(w.Drive); err == nil {
+			st.Mark("distinct_final_tapes", sumOf(b))
+		}
 		finished = true
 	})
 	held, leaked = out.Held, out.Leaked
 	st.Add("sched_steps", int64(out.Steps))
+	st.Mark("distinct_schedules", fmt.Sprintf("%x/%d", out.SwitchHash, out.Steps))
 	if hv != nil {
 		return hv, dev
 	}
